@@ -154,6 +154,25 @@ func scenarios() []*sched.Scenario {
 		}
 	})
 
+	add("event/hook-unhooks-its-successor", func() {
+		e := event.New1[int]()
+		var hb, hd *event.Hook[func(int)]
+		e.Hook(func(a int) {
+			vrt.Observe("hook", "A", a)
+			hb.Unhook() // returned before B's turn: B is "not yet unhooked" no more
+			hd.Unhook() // not the direct successor
+		})
+		hb = e.Hook(hookFn("B"))
+		e.Hook(hookFn("C"))
+		hd = e.Hook(hookFn("D"))
+		e.Hook(hookFn("E"))
+		e.Trigger(1)
+		e.Trigger(2)
+		if calls("A") != 2 || calls("B") != 0 || calls("C") != 2 || calls("D") != 0 || calls("E") != 2 {
+			vrt.Fail("hook-call-count|unhooked-by-predecessor", "A/B/C/D/E were called %d/%d/%d/%d/%d times; A unhooks B and D during the first trigger (expected 2/0/2/0/2)", calls("A"), calls("B"), calls("C"), calls("D"), calls("E"))
+		}
+	})
+
 	add("event/linkto-relink-vs-triggers", func() {
 		e1, e2, e3 := event.New1[int](), event.New1[int](), event.New1[int]()
 		e2.Hook(hookFn("L"))
